@@ -41,3 +41,38 @@ Fixpoint cands_close (g : grid) (a b : list (list Q * Q)) : bool :=
 Definition loc_agree (c : loc_case) : bool :=
   cands_close (lc_grid c) (candidates (lc_grid c) (lc_lab c)) (lc_cands c) &&
   list_eqb (ro (tbl (lc_D c)) (vec (lc_rad c)) 0 (seq 0 (length (lc_rad c)))) (lc_out c).
+
+(* ---- symmetric grids ---- *)
+From PD Require Import Model.LocateSym.
+
+Record rad_case := { rd_lo : Q; rd_dr : Q; rd_mask : list bool; rd_out : option Q }.
+
+Definition rad_agree (c : rad_case) : bool :=
+  match locate_radial (rd_lo c) (rd_dr c) (rd_mask c), rd_out c with
+  | None, None => true
+  | Some r, Some r' => close_rel r r' (1 # 1000000000000)
+  | _, _ => false
+  end.
+
+Record cyl_case := {
+  cy_grid : cylgrid;
+  cy_lab_pad : list nat; cy_lab : list nat;      (* scipy labels of the padded image and of the image *)
+  cy_cands : list (Q * Q);                       (* implementation: (z, volume / pi) before overlap removal *)
+  cy_rad : list Q; cy_D : list (list Q); cy_out : list nat
+}.
+
+Fixpoint zv_close (a b : list (Q * Q)) : bool :=
+  match a, b with
+  | [], [] => true
+  | (z, v) :: a', (z', v') :: b' =>
+      close_rel z z' (1 # 1000000000000) && close_rel v v' (1 # 100000000000) && zv_close a' b'
+  | _, _ => false
+  end.
+
+Definition cyl_agree (c : cyl_case) : bool :=
+  let g := cy_grid c in
+  let img_pad := mk_limage [cg_nr g; (3 * cg_nz g)%Z] (cy_lab_pad c) in
+  let img := mk_limage [cg_nr g; cg_nz g] (cy_lab c) in
+  let cands := cyl_candidates g img_pad img in
+  zv_close cands (cy_cands c) &&
+  list_eqb (ro (tbl (cy_D c)) (vec (cy_rad c)) 0 (seq 0 (length (cy_rad c)))) (cy_out c).
